@@ -279,9 +279,16 @@ def case_strategy(draw, quick):
 
 
 def replay(ctx, case):
+    if case.get("kind") == "wiring":
+        from . import wiring
+
+        return wiring.check_wiring(ctx, case)
     return check_case(ctx, case)
 
 
 def run(ctx):
     q = ctx.quick
     ctx.hyp("pedigree_moves", case_strategy(q), check_case, 400 if q else 2000)
+    from . import wiring
+
+    ctx.hyp("wiring", wiring.wiring_case("call-pedigree"), wiring.check_wiring, 10 if q else 40)
